@@ -715,15 +715,14 @@ Qed.
 
 Lemma f21_idle : idle_expired p_f21 1000 0 s_f21.
 Proof.
-  split; [vm_compute; left; reflexivity|]. intros c IC F. apply f21_quiet; assumption.
+  split; [vm_compute; left; reflexivity|]. intros c IC F. exact (proj1 (f21_quiet c IC F)).
 Qed.
 
 Lemma f21_stalled : stalled p_f21 0 1000 s_f21.
 Proof.
-  assert (I : In 1000 (chan_fds s_f21)) by (vm_compute; left; reflexivity).
-  unfold chan_fds in I. apply in_map_iff in I. destruct I as (c & F & IC).
-  destruct (f21_quiet c IC F) as (Q & G & R & M & _).
-  exists c. split; [exact IC|]. split; [exact F|]. split; [exact Q|]. auto.
+  rewrite s_f21_eq. unfold s_f21_nf, stalled. cbn [st_chans st_clock].
+  eexists. split; [left; reflexivity|]. unfold quiet_chan. cbn.
+  repeat split; try reflexivity; try lia.
 Qed.
 
 (* all hypotheses of reap_deadline except writable_at_polls hold, the conclusion fails *)
